@@ -37,7 +37,9 @@ PROP = dict(
          "httptest.Server, with a list of requests; exhaustive part: every API of <=2 operations from a template pool x {GET,POST} x "
          "base spellings with every target of <=3 segments over a segment pool (and <=2 segments over a wide pool x every method "
          "spelling), every byte value plain/escaped in a parameter position; seeded part: random APIs of <=12 operations with shared "
-         "prefixes and static/parameterised siblings, targets instantiated from templates and mutated. Non-trivial: at least one "
+         "prefixes and static/parameterised siblings, targets instantiated from templates and mutated; concurrent part: batches of 8/64 "
+         "simultaneous requests with request-unique parameter texts against one handler at GOMAXPROCS 1/4/16 (with and without a "
+         "yielding debug logger), one event per request. Non-trivial: at least one "
          "request ran a handler with parameters and at least one got 404/405; distinct by hash of the case.",
     assumptions=COMMON_ASSUME + [
         "templates are '/'-separated segments each of which is a literal or one whole-segment placeholder {name}; literal segments "
